@@ -1321,7 +1321,7 @@ Proof.
   pose proof (var_shape_nonneg dims v Hdims) as Hnn.
   pose proof (eff_pos _ Hnn Hu) as He.
   rewrite check_vlen_eff in Hc.
-  pose proof (check_vlen_loop_bound _ _ _ He ltac:(lia) ltac:(unfold I64_MAX; lia) Hc) as Hb.
+  pose proof (check_vlen_loop_bound (eff (var_shape dims v)) (xlen_type (v_type v)) (I64_MAX - 3) He ltac:(lia) ltac:(unfold I64_MAX; lia) Hc) as Hb.
   pose proof (zprod_pos1 _ He) as Hz.
   assert (Hraw : 0 <= rawv v <= I64_MAX - 3) by (unfold rawv; nia).
   assert (HL : Lv v = (if rawv v mod 4 >? 0 then rawv v + (4 - rawv v mod 4) else rawv v)).
@@ -1386,3 +1386,318 @@ Proof.
       unfold brF, rsF, fvF, frF. cbn [rev]. rewrite <- app_assoc. destruct fv; reflexivity.
 Qed.
 End Post.
+
+Lemma zip_map2 : forall A B C (f : A -> B) (g : A -> C) l, zip (map f l) (map g l) = map (fun x => (f x, g x)) l.
+Proof. induction l as [|x l IH]; [reflexivity|]. cbn [map zip]. now rewrite IH. Qed.
+
+Lemma last_opt_snoc : forall A (l : list A) x, last_opt (l ++ [x]) = Some x.
+Proof. intros. unfold last_opt. now rewrite rev_unit. Qed.
+
+Lemma filter_ext_eq : forall A (f g : A -> bool) l, (forall x, f x = g x) -> filter f l = filter g l.
+Proof. intros A f g l H. induction l as [|x l IH]; [reflexivity|]. cbn [filter]. now rewrite H, IH. Qed.
+
+Section Post2.
+Variable dims : list dim.
+Hypothesis Hdims : Forall (fun d => 0 <= d_size d) dims.
+Notation Lv := (Lv dims).
+Notation isr := (isr dims).
+Notation rawv := (rawv dims).
+Notation pvQ := (pvQ dims).
+Notation brF := (brF dims).
+Notation rsF := (rsF dims).
+Notation fvF := (fvF dims).
+Notation frF := (frF dims).
+
+Definition nonrec (v : var) : bool := negb (isr v).
+Definition bl (v : var) : Z * Z := (v_begin v, Lv v).
+
+Lemma brF_last : forall vs br,
+  brF vs br = match last_opt (filter nonrec vs) with Some v => v_begin v + Lv v | None => br end.
+Proof.
+  intros vs br. induction vs as [|v vs IH] using rev_ind; [reflexivity|].
+  unfold Proofs_Reader.brF in *. rewrite fold_left_app. cbn [fold_left].
+  rewrite filter_app. cbn [filter]. unfold nonrec at 2. destruct (isr v) eqn:E; cbn [negb].
+  - rewrite app_nil_r. exact IH.
+  - now rewrite last_opt_snoc.
+Qed.
+
+Lemma rsF_sum : forall vs rs, rsF vs rs = rs + zsum (map Lv (filter isr vs)).
+Proof.
+  induction vs as [|v vs IH]; intros rs; unfold Proofs_Reader.rsF in *; cbn [fold_left filter]; [cbn; lia|].
+  rewrite IH. destruct (isr v); cbn [map zsum]; lia.
+Qed.
+
+Lemma fvF_some : forall vs x, fvF vs (Some x) = Some x.
+Proof.
+  induction vs as [|v vs IH]; intros x; unfold Proofs_Reader.fvF in *; cbn [fold_left]; [reflexivity|].
+  destruct (isr v); apply IH.
+Qed.
+
+Lemma fvF_hd : forall vs, fvF vs None = match filter nonrec vs with fv :: _ => Some (v_begin fv) | [] => None end.
+Proof.
+  induction vs as [|v vs IH]; [reflexivity|]. unfold Proofs_Reader.fvF in *. cbn [fold_left filter].
+  unfold nonrec at 1. destruct (isr v); cbn [negb]; [exact IH | apply fvF_some].
+Qed.
+
+Lemma frF_some : forall vs x, frF vs (Some x) = Some x.
+Proof.
+  induction vs as [|v vs IH]; intros x; unfold Proofs_Reader.frF in *; cbn [fold_left]; [reflexivity|].
+  destruct (isr v); apply IH.
+Qed.
+
+Lemma frF_hd : forall vs, frF vs None = match filter isr vs with fr :: _ => Some (v_begin fr, Lv fr, rawv fr) | [] => None end.
+Proof.
+  induction vs as [|v vs IH]; [reflexivity|]. unfold Proofs_Reader.frF in *. cbn [fold_left filter].
+  destruct (isr v); [apply frF_some | exact IH].
+Qed.
+
+(* ordering facts *)
+Lemma order_brF : forall vs p e, order_ok p (map bl (filter nonrec vs)) = Some e -> brF vs p = e.
+Proof.
+  induction vs as [|v vs IH]; intros p e H; unfold Proofs_Reader.brF in *; cbn [fold_left filter] in *.
+  - cbn in H. now inversion H.
+  - unfold nonrec at 1 in H. destruct (isr v); cbn [negb] in H; [now apply IH|].
+    cbn [map order_ok bl] in H. unfold bl at 1 in H. destruct (v_begin v <? p); [discriminate|]. now apply IH.
+Qed.
+
+Lemma order_ok_ge : forall l p e, Forall (fun q => 0 <= snd q) l -> order_ok p l = Some e -> p <= e.
+Proof.
+  induction l as [|[b len] l IH]; intros p e Hl H; cbn [order_ok] in H; [inversion H; lia|].
+  inversion Hl as [|? ? H0 Hr]; subst. cbn [snd] in H0.
+  destruct (b <? p) eqn:E; [discriminate|]. specialize (IH _ _ Hr H). lia.
+Qed.
+
+Lemma order_ok_first : forall b len r p e, order_ok p ((b, len) :: r) = Some e ->
+  p <= b /\ order_ok b ((b, len) :: r) = Some e.
+Proof.
+  intros b len r p e H. cbn [order_ok] in *. destruct (b <? p) eqn:E; [discriminate|].
+  split; [lia|]. replace (b <? b) with false by lia. exact H.
+Qed.
+
+Lemma voffs_pass_ok : forall vs want prev,
+  Forall (fun v => 0 <= v_begin v /\ 0 <= Lv v /\ v_begin v + Lv v <= I64_MAX) vs ->
+  voffs_pass (map (fun v => (isr v, v_begin v, Lv v)) vs) want prev =
+  Ok (order_ok prev (map bl (filter (fun v => Bool.eqb (isr v) want) vs))).
+Proof.
+  induction vs as [|v vs IH]; intros want prev H; [reflexivity|].
+  inversion H as [|? ? (H0 & H1 & H2) Hr]; subst. cbn [map voffs_pass filter].
+  destruct (Bool.eqb (isr v) want); [|now apply IH].
+  cbn [map order_ok]. unfold bl at 1. destruct (v_begin v <? prev); [reflexivity|].
+  unfold chk, in_i64, I64_MIN, I64_MAX in *.
+  replace ((-9223372036854775808 <=? v_begin v + Lv v) && (v_begin v + Lv v <=? 9223372036854775807)) with true by lia.
+  cbn [rbind]. now apply IH.
+Qed.
+
+Lemma filter_eqb_false : forall vs, filter (fun v => Bool.eqb (isr v) false) vs = filter nonrec vs.
+Proof. intros. apply filter_ext_eq. intros x. unfold nonrec. destruct (isr x); reflexivity. Qed.
+Lemma filter_eqb_true : forall vs, filter (fun v => Bool.eqb (isr v) true) vs = filter isr vs.
+Proof. intros. apply filter_ext_eq. intros x. destruct (isr x); reflexivity. Qed.
+
+(* size rules: the faithful version returns what Header.check_vlens computes *)
+Lemma cvlen_ok : forall v vmax, pvQ v -> 0 <= vmax <= I64_MAX ->
+  cvlen (xlen_type (v_type v)) (var_shape dims v) vmax
+  = Ok (check_vlen (xlen_type (v_type v)) (var_shape dims v) vmax).
+Proof.
+  intros v vmax Hq Hv. pose proof (pvQ_facts dims Hdims v Hq) as (Hnn & He & _).
+  destruct Hq as (_ & Hx & _). unfold cvlen. fold (eff (var_shape dims v)).
+  rewrite check_vlen_eff. apply cvlen_loop_eq; [assumption | lia | assumption].
+Qed.
+
+Definition drop3 (o : option (Z * bool * Z)) : option (Z * bool) :=
+  match o with Some (c, l, _) => Some (c, l) | None => None end.
+
+Lemma rvl_pass_ok : forall fmt vmax want vs cnt last nsel, Forall pvQ vs -> 0 <= vmax <= I64_MAX ->
+  rvl_pass fmt vmax (map (fun v => (xlen_type (v_type v), var_shape dims v)) vs) want cnt last
+  = Ok (drop3 (vlens_pass fmt vmax (map (var_triple dims) vs) want cnt last nsel)).
+Proof.
+  intros fmt vmax want. induction vs as [|v vs IH]; intros cnt last nsel HQ Hv; [reflexivity|].
+  inversion HQ as [|? ? Hq Hr]; subst. cbn [map rvl_pass vlens_pass]. unfold var_triple at 1.
+  change (shape_isrec (var_shape dims v)) with (is_recvar dims v).
+  destruct (Bool.eqb (is_recvar dims v) want); [|now apply IH].
+  rewrite (cvlen_ok v vmax Hq Hv). cbn [rbind].
+  destruct (check_vlen (xlen_type (v_type v)) (var_shape dims v) vmax); [now apply IH|].
+  destruct (fmt >=? 5); [reflexivity | now apply IH].
+Qed.
+
+Lemma vlen_max_range : forall fmt, 0 <= vlen_max_of fmt <= I64_MAX.
+Proof.
+  intros fmt. unfold vlen_max_of, NC_MAX_INT64, NC_MAX_UINT, NC_MAX_INT, I64_MAX.
+  destruct (fmt >=? 5); [lia|]. destruct (fmt =? 2); lia.
+Qed.
+
+Lemma rd_check_vlens_ok : forall fmt gatts nr vs, Forall pvQ vs ->
+  rd_check_vlens fmt (map (fun v => (xlen_type (v_type v), var_shape dims v)) vs)
+  = Ok (check_vlens (mkhdr fmt nr dims gatts vs)).
+Proof.
+  intros fmt gatts nr vs HQ. unfold rd_check_vlens, check_vlens. cbn [h_format h_dims h_vars].
+  destruct vs as [|v0 vs0] eqn:Evs; [reflexivity|]. rewrite <- Evs in *. 
+  assert (Hne : map (fun v => (xlen_type (v_type v), var_shape dims v)) vs <> []) by (rewrite Evs; discriminate).
+  assert (Hne2 : map (var_triple dims) vs <> []) by (rewrite Evs; discriminate).
+  destruct (map (fun v => (xlen_type (v_type v), var_shape dims v)) vs) as [|x xs] eqn:E1; [congruence|]. rewrite <- E1.
+  destruct (map (var_triple dims) vs) as [|y ys] eqn:E2; [congruence|]. rewrite <- E2.
+  rewrite (rvl_pass_ok fmt _ false vs 0 false 0 HQ (vlen_max_range fmt)). cbn [rbind].
+  destruct (vlens_pass fmt (vlen_max_of fmt) (map (var_triple dims) vs) false 0 false 0) as [[[lf lastf] n1]|]; cbn [drop3]; [|reflexivity].
+  destruct (lf >? 1); [reflexivity|]. destruct ((lf =? 1) && negb lastf); [reflexivity|].
+  assert (Hcnt : Zlen (filter (fun t : Z * list Z => shape_isrec (snd t)) (map (fun v => (xlen_type (v_type v), var_shape dims v)) vs))
+               = Zlen (filter (fun t : bool * Z * list Z => fst (fst t)) (map (var_triple dims) vs))).
+  { clear. induction vs as [|v vs IH]; [reflexivity|]. cbn [map filter fst snd]. unfold var_triple at 1. cbn [fst snd].
+    change (shape_isrec (var_shape dims v)) with (is_recvar dims v).
+    destruct (is_recvar dims v); [rewrite !Zlen_cons; now rewrite IH | exact IH]. }
+  rewrite Hcnt.
+  destruct (Zlen (filter (fun t : bool * Z * list Z => fst (fst t)) (map (var_triple dims) vs)) =? 0); [reflexivity|].
+  destruct (lf =? 1); [reflexivity|].
+  rewrite (rvl_pass_ok fmt _ true vs 0 false 0 HQ (vlen_max_range fmt)). cbn [rbind].
+  destruct (vlens_pass fmt (vlen_max_of fmt) (map (var_triple dims) vs) true 0 false 0) as [[[lr lastr] n2]|]; cbn [drop3]; [|reflexivity].
+  destruct (lr >? 1); [reflexivity|]. destruct ((lr =? 1) && negb lastr); reflexivity.
+Qed.
+End Post2.
+
+Lemma filter_both_nil : forall A (f : A -> bool) l, filter f l = [] -> filter (fun x => negb (f x)) l = [] -> l = [].
+Proof.
+  intros A f [|x l] H1 H2; [reflexivity|]. cbn [filter] in *. destruct (f x); cbn [negb] in *; discriminate.
+Qed.
+
+Lemma filter_partition_len : forall A (f : A -> bool) l,
+  Zlen (filter f l) + Zlen (filter (fun x => negb (f x)) l) = Zlen l.
+Proof.
+  induction l as [|x l IH]; [reflexivity|]. cbn [filter]. destruct (f x); cbn [negb]; rewrite !Zlen_cons; lia.
+Qed.
+
+Section Post3.
+Variable dims : list dim.
+Hypothesis Hdims : Forall (fun d => 0 <= d_size d) dims.
+Notation Lv := (Lv dims).
+Notation isr := (isr dims).
+Notation rawv := (rawv dims).
+Notation pvQ := (pvQ dims).
+Notation nonrec := (nonrec dims).
+Notation bl := (bl dims).
+
+Definition layQ (xsz : Z) (vs : list var) : Prop :=
+  Forall pvQ vs /\ zsum (map Lv (filter isr vs)) <= I64_MAX /\ 0 < xsz <= I64_MAX /\
+  exists ef, order_ok xsz (map bl (filter nonrec vs)) = Some ef /\
+    (filter isr vs = [] \/ exists er, order_ok ef (map bl (filter isr vs)) = Some er).
+
+Lemma bl_nonneg : forall vs, Forall pvQ vs -> forall f, Forall (fun q => 0 <= snd q) (map bl (filter f vs)).
+Proof.
+  intros vs HQ f. apply Forall_forall. intros q Hq. apply in_map_iff in Hq. destruct Hq as [v [<- Hv]].
+  apply filter_In in Hv. destruct Hv as [Hv _]. rewrite Forall_forall in HQ.
+  pose proof (pvQ_facts dims Hdims v (HQ v Hv)). cbn [bl snd]. unfold Proofs_Reader.bl. cbn [snd]. tauto.
+Qed.
+
+Lemma post_open_ok : forall fmt nr gatts vs,
+  let h := mkhdr fmt nr dims gatts vs in
+  layQ (hdr_len h) vs -> check_vlens h = NC_NOERR ->
+  post_open h (map (fun _ => true) vs) =
+  Ok (mkopened h (layout_of_hdr h (hdr_len h)) (map (var_len dims) vs) (Zlen (filter (is_recvar dims) vs))).
+Proof.
+  intros fmt nr gatts vs h (HQ & Hsum & Hx & ef & Hof & Hor) Hvl.
+  set (xsz := hdr_len h) in *.
+  unfold post_open. fold xsz. unfold chk, in_i64, I64_MIN, I64_MAX in *.
+  replace ((-9223372036854775808 <=? xsz) && (xsz <=? 9223372036854775807)) with true by lia.
+  cbn [rbind]. subst h. cbn [h_dims h_vars h_format].
+  replace (zip vs (map (fun _ : var => true) vs)) with (map (fun v => (v, true)) vs)
+    by (rewrite <- (map_id vs) at 2; now rewrite zip_map2).
+  rewrite zip_map2.
+  replace (map shape_isrec (map (var_shape dims) vs)) with (map isr vs) by (now rewrite map_map).
+  destruct vs as [|v0 vs0] eqn:Evs.
+  { cbn. reflexivity. }
+  rewrite <- Evs in *. assert (Hne : vs <> []) by (rewrite Evs; discriminate).
+  (* compute_var_shape *)
+  unfold compute_var_shape.
+  destruct (map (fun v => (v, true)) vs) as [|p0 ps] eqn:Emap; [rewrite Evs in Emap; discriminate|]. rewrite <- Emap.
+  rewrite (cvs_loop_spec dims Hdims vs xsz 0 None None [] HQ ltac:(lia) ltac:(unfold I64_MAX; lia)).
+  cbn [rbind app rev].
+  rewrite (order_brF dims vs xsz ef Hof), rsF_sum, fvF_hd, frF_hd.
+  pose proof (bl_nonneg vs HQ) as Hbn.
+  pose proof (order_ok_ge _ _ _ (Hbn nonrec) Hof) as Hxe.
+  assert (Hlay : exists bv br rs,
+     (match (match filter isr vs with fr :: _ => Some (v_begin fr, Lv fr, rawv fr) | [] => None end) with
+      | Some (fb, fl, fraw) => if ef >? fb then Err NC_ENOTNC
+                               else Ok (fb, if 0 + zsum (map Lv (filter isr vs)) =? fl then fraw else 0 + zsum (map Lv (filter isr vs)))
+      | None => Ok (ef, 0 + zsum (map Lv (filter isr vs)))
+      end) = Ok (br, rs) /\
+     bv = (match (match filter nonrec vs with fv :: _ => Some (v_begin fv) | [] => None end) with Some b => b | None => br end) /\
+     layout_of_hdr (mkhdr fmt nr dims gatts vs) xsz = mklayout xsz bv br rs (map v_begin vs) /\
+     xsz <= bv <= br /\
+     (filter nonrec vs <> [] -> order_ok bv (map bl (filter nonrec vs)) = Some ef) /\ ef <= br /\
+     (filter isr vs <> [] -> exists er, order_ok br (map bl (filter isr vs)) = Some er)).
+  { unfold layout_of_hdr. cbn [h_dims h_vars].
+    change (filter (fun v => negb (is_recvar dims v)) vs) with (filter nonrec vs).
+    change (filter (is_recvar dims) vs) with (filter isr vs).
+    change (map (var_len dims) (filter isr vs)) with (map Lv (filter isr vs)).
+    rewrite <- (brF_last dims vs xsz), (order_brF dims vs xsz ef Hof).
+    destruct (filter isr vs) as [|fr frs] eqn:Er.
+    - (* no record variable *)
+      destruct (filter nonrec vs) as [|fv fvs] eqn:Ef.
+      { exfalso. apply Hne. eapply filter_both_nil; [exact Er | exact Ef]. }
+      destruct (order_ok_first _ _ _ _ _ Hof) as [Hb Hof'].
+      pose proof (order_ok_ge _ _ _ (Hbn nonrec) Hof') as Hbe. rewrite Ef in Hbe. specialize (Hbe ltac:(rewrite <- Ef; apply Hbn)).
+      exists (v_begin fv), ef, 0. cbn [map zsum]. rewrite Evs at 1. rewrite <- Evs.
+      repeat split; try lia; try reflexivity.
+      + destruct vs; [congruence | reflexivity].
+      + intros _. exact Hof'.
+      + intros Hc. congruence.
+    - destruct Hor as [Hc | [er Her]]; [discriminate|].
+      destruct (order_ok_first _ _ _ _ _ Her) as [Hb Her'].
+      replace (ef >? v_begin fr) with false by lia.
+      set (rs0 := 0 + zsum (map Lv (fr :: frs))).
+      assert (Hrs : (if zsum (map Lv (fr :: frs)) =? var_len dims fr
+                     then var_nelems_per_rec (var_shape dims fr) * xlen_type (v_type fr)
+                     else zsum (map Lv (fr :: frs))) = (if rs0 =? Lv fr then rawv fr else rs0)).
+      { unfold rs0. replace (0 + zsum (map Lv (fr :: frs))) with (zsum (map Lv (fr :: frs))) by lia.
+        unfold Proofs_Reader.rawv. rewrite nelems_eff. reflexivity. }
+      destruct (filter nonrec vs) as [|fv fvs] eqn:Ef.
+      + cbn in Hof. inversion Hof; subst ef.
+        exists (v_begin fr), (v_begin fr), (if rs0 =? Lv fr then rawv fr else rs0).
+        rewrite Hrs. repeat split; try lia; try reflexivity.
+        * destruct vs; [congruence | reflexivity].
+        * intros Hc; congruence.
+        * intros _. exists er. exact Her'.
+      + destruct (order_ok_first _ _ _ _ _ Hof) as [Hb2 Hof'].
+        pose proof (order_ok_ge _ _ _ ltac:(rewrite <- Ef; apply Hbn) Hof') as Hbe.
+        exists (v_begin fv), (v_begin fr), (if rs0 =? Lv fr then rawv fr else rs0).
+        rewrite Hrs. repeat split; try lia; try reflexivity.
+        * destruct vs; [congruence | reflexivity].
+        * intros _. exact Hof'.
+        * intros _. exists er. exact Her'. }
+  destruct Hlay as (bv & br & rs & E1 & Ebv & Elay & Hrange & Hfix & Hefbr & Hrec).
+  rewrite E1. cbn [rbind]. rewrite <- Ebv.
+  replace ((bv <=? 0) || (xsz >? bv) || (br <=? 0) || (bv >? br)) with false by lia.
+  cbn [rbind].
+  (* check_vlens *)
+  rewrite (rd_check_vlens_ok dims Hdims fmt gatts nr vs HQ). rewrite Hvl. cbn [rbind]. change (NC_NOERR =? NC_NOERR) with true. cbn [negb].
+  (* check_voffs *)
+  rewrite zip_map2. rewrite zip_map2.
+  change (fun x : var => (isr x, v_begin x, var_len dims x)) with (fun v : var => (isr v, v_begin v, Lv v)).
+  assert (Hvo : rd_check_voffs bv br (map (fun v : var => (isr v, v_begin v, Lv v)) vs) = Ok NC_NOERR).
+  { unfold rd_check_voffs.
+    destruct (map (fun v : var => (isr v, v_begin v, Lv v)) vs) as [|t0 ts] eqn:Em; [rewrite Evs in Em; discriminate|]. rewrite <- Em.
+    assert (Hnr : Zlen (filter (fun t : bool * Z * Z => fst (fst t)) (map (fun v : var => (isr v, v_begin v, Lv v)) vs)) = Zlen (filter isr vs)).
+    { clear. induction vs as [|v vs IH]; [reflexivity|]. cbn [map filter fst]. destruct (isr v); [rewrite !Zlen_cons; now rewrite IH | exact IH]. }
+    rewrite Hnr, Zlen_map.
+    pose proof (filter_partition_len _ isr vs) as Hpart. change (filter (fun x => negb (isr x)) vs) with (filter nonrec vs) in Hpart.
+    assert (Hbounds : Forall (fun v => 0 <= v_begin v /\ 0 <= Lv v /\ v_begin v + Lv v <= I64_MAX) vs).
+    { apply Forall_forall. intros v Hv. rewrite Forall_forall in HQ. pose proof (pvQ_facts dims Hdims v (HQ v Hv)) as (_ & _ & _ & HL & _).
+      destruct (HQ v Hv) as (_ & _ & _ & Hb0 & Hb1). unfold Proofs_Reader.Lv in *. lia. }
+    assert (E0 : (if Zlen vs - Zlen (filter isr vs) =? 0 then Ok NC_NOERR
+                  else rbind (voffs_pass (map (fun v : var => (isr v, v_begin v, Lv v)) vs) false bv)
+                         (fun o => match o with None => Ok NC_ENOTNC | Some e => if br <? e then Ok NC_ENOTNC else Ok NC_NOERR end))
+                 = Ok NC_NOERR).
+    { destruct (Zlen vs - Zlen (filter isr vs) =? 0) eqn:En; [reflexivity|].
+      rewrite (voffs_pass_ok dims vs false bv Hbounds), filter_eqb_false. cbn [rbind].
+      rewrite Hfix; [replace (br <? ef) with false by lia; reflexivity|].
+      intros Hc. rewrite Hc in Hpart. cbn in Hpart. lia. }
+    rewrite E0. cbn [rbind]. change (NC_NOERR =? NC_NOERR) with true. cbn [negb].
+    destruct (Zlen (filter isr vs) =? 0) eqn:En; [reflexivity|].
+    rewrite (voffs_pass_ok dims vs true br Hbounds), filter_eqb_true. cbn [rbind].
+    destruct Hrec as [er Her]; [intros Hc; rewrite Hc in En; cbn in En; discriminate|].
+    rewrite Her. reflexivity. }
+  rewrite Hvo. cbn [rbind]. change (NC_NOERR =? NC_NOERR) with true. cbn [negb].
+  rewrite Elay. rewrite map_map.
+  replace (filter shape_isrec (map (var_shape dims) vs)) with (map (var_shape dims) (filter isr vs)).
+  - rewrite Zlen_map. reflexivity.
+  - clear. induction vs as [|v vs IH]; [reflexivity|]. cbn [map filter]. change (shape_isrec (var_shape dims v)) with (isr v).
+    destruct (isr v); cbn [map]; now rewrite IH.
+Qed.
+End Post3.
